@@ -356,3 +356,19 @@ def run(repo, rep, tier):  # noqa: F811 -- round-7 remedies / borrowings
 _ADD_R7A = ' Borrowed: R19.10 (every rendered call of a flag-taking helper -- including the recursive re-entry of a union packer -- forwards get_pack_method_flags(), so omit_none / by_alias / dialect reach nested levels).'
 EXPLANATION += _ADD_R7A
 LEVEL_TEXT += _ADD_R7A
+
+
+_run_before_r7s = run
+
+
+def run(repo, rep, tier):  # noqa: F811 -- round-7 remedies / borrowings
+    _run_before_r7s(repo, rep, tier)
+    if getattr(rep, "borrowed", False):
+        return
+    from ..core import round7 as _r7s
+    _r7s.nullability_on_substituted_type(repo, rep, "R05.17")
+
+
+_ADD_R7S = ' Borrowed: R05.17 (the None guard / omit_none of a TypeVar field follows the substituted type).'
+EXPLANATION += _ADD_R7S
+LEVEL_TEXT += _ADD_R7S
